@@ -82,7 +82,16 @@ def shift_register_form(rep, c, env, inp):
                         f"differs from the configured {ir.show(stages)} whenever the two expressions differ (e.g. a lower bound of 2 against "
                         "input_stages == 1)", line=ln)
             else:
-                rep.unk("C16.1", site, "synchroniser cell", "FFSynchronizer(stages=self.input_stages): the cell's own lower bound on stages is not modelled")
+                # library fact (amaranth.lib.cdc._check_stages, read once and recorded as assumption A7): the cell refuses stages < 2
+                # with ValueError.  The peripheral accepts input_stages == 1, so that configuration can no longer be elaborated.
+                guards = [c.norm(fr[1]) for fr in gen if fr[0] == 'pyif' and fr[2]]
+                excludes_one = any(g == c.norm(ir.parse("self.input_stages > 1")) or g == c.norm(ir.parse("self.input_stages >= 2")) for g in guards)
+                if excludes_one:
+                    rep.unk("C16.1", site, "synchroniser cell", "FFSynchronizer is used only for input_stages >= 2; the remaining depths are not matched to a verified shape")
+                else:
+                    rep.bad("C16.1", site, "chain length == input_stages",
+                            "FFSynchronizer(stages=self.input_stages) is reached with input_stages == 1, which the constructor accepts; the "
+                            "library cell refuses fewer than 2 stages (ValueError), so that configuration fails at elaboration", line=ln)
         return
     if len(cands) != 1:
         rep.unk("C16.1", site, "synchroniser chain", "neither a loop-carried chain starting at pin.i nor one input_stages-bit shift register per pin was found")
@@ -136,7 +145,7 @@ def shift_register_form(rep, c, env, inp):
 
 def run(rep, idx, tier):
     rep.explanation = EXPLANATION
-    rep.assume("A2", "A3", "A4")
+    rep.assume("A2", "A3", "A4", "A7")
     rep.require("C16.1", 4)
     rep.require("C16.2", 3)
     rep.require("C16.3", 4)
